@@ -124,7 +124,7 @@ func main() {
 
 var delaySites = []string{"auth.ready", "as.post.ready", "order.ready"}
 
-func plan(tier string, seed int64) []run.Batch {
+func planBase(tier string, seed int64) []run.Batch {
 	seqChildren, seqPer := 6, 5
 	concChildren, concPer := 8, 5
 	delayRounds := 1
@@ -837,7 +837,7 @@ func startSink() (uint16, func(), error) {
 
 // ---------------------------------------------------------------- child
 
-func child(b run.Batch, r *ev.Result) {
+func childBase(b run.Batch, r *ev.Result) {
 	drv.SetClock(0)
 	sink, stop, err := startSink()
 	if err != nil {
